@@ -49,7 +49,7 @@ def generate(scen, c, num, depth, seed, late):
         shutil.rmtree(tmp, ignore_errors=True)
 
 
-def replay_all(behs, scen, c, units, seed, framings=('cl',), jitter=True, threaded=False):
+def replay_all(behs, scen, c, units, seed, framings=('cl',), jitter=True, threaded=False, work=None):
     """Run every behaviour on the real stack.  -> (traces for TraceConn, drift list, run infos)"""
     rnd = random.Random(seed)
     traces, drifts, infos = [], [], []
@@ -63,12 +63,14 @@ def replay_all(behs, scen, c, units, seed, framings=('cl',), jitter=True, thread
         pieces = 1
         if scen == 'reject':
             pieces = len(b[0][2]['cbuf'])
-        run = conn_replay.Run(scen, n, U, seed=rnd.randrange(1 << 30), framing=framing, pieces=pieces, jitter=jit, threaded=threaded)
-        run.play(b, compare=not jit and not threaded)
+        run = conn_replay.Run(scen, n, U, seed=rnd.randrange(1 << 30), framing=framing, pieces=pieces, jitter=jit, threaded=threaded, work=work)
+        run.play(b, compare=not jit and not threaded and work is None)
         evs = run.finish()
         tid = len(traces) + 1
         traces.append({'id': tid, 'mode': 'tunnel' if scen == 'tunnel' else 'http', 'ev': evs, 'exec': 'threaded' if threaded else 'threadless'})
-        info = {'id': tid, 'scen': scen, 'U': U, 'framing': run.framing if scen == 'http' else None, 'pieces': pieces, 'jitter': jit, 'mode': 'threaded' if threaded else 'threadless',
+        if work:
+            traces[-1]['work'] = work
+        info = {'id': tid, 'scen': scen, 'U': U, 'framing': run.framing if scen == 'http' else None, 'pieces': pieces, 'jitter': jit, 'mode': 'threaded' if threaded else 'threadless', 'work': work or 'HttpProtocolHandler',
                 'schedule': [a for a, _, _ in b][1:], 'consts': n, 'run_seed': run.seed,
                 'client_got': len(run.c.got), 'client_eof': run.c.eof_seen,
                 'loop_alive': run.sim.alive}
@@ -104,6 +106,8 @@ def classify(clause, trace, idx):
     sig = {'clause': clause.split(' (')[0], 'mode': trace['mode']}
     if trace.get('exec') == 'threaded':
         sig['exec'] = 'threaded'
+    if trace.get('work'):
+        sig['work'] = trace['work']
     last_send_u = [e for e in evs if e['e'] == 'send' and e['s'] == 'u']
     sig['upstream_write_error_before'] = bool(last_send_u and last_send_u[-1]['res'] == 'err')
     ceof = any(e['e'] == 'recv' and e['s'] == 'c' and e['res'] in ('eof', 'err') for e in evs) or \
